@@ -220,7 +220,7 @@ def shard_large(spec, R):
 
 def plan(tier, seed):
     q = tier == "quick"
-    specs = [{"kind": "small", "sub": i, "cases": 120 if q else 1500, "budget_s": 100 if q else 1200} for i in range(8 if q else 16)]
+    specs = [{"kind": "small", "sub": i, "cases": 120 if q else 4000, "budget_s": 100 if q else 600} for i in range(8 if q else 16)]
     for n in (100_000, 1_000_000, 17_000_000):
         specs.append({"kind": "large", "sub": 0, "pixels": n, "patterns": ["alt", "rand", "float"]})
     specs.append({"kind": "large", "sub": 3, "pixels": 1_000_000, "steps": 4, "patterns": ["rand", "float"]})
